@@ -25,8 +25,10 @@ def build():
     HB = tp.SimpleClassifier("HB", [G.new([B])])            # HB : G<B>
     T4 = tp.TypeParameter("X", tp.Covariant)
     Hco = tp.TypeConstructor("Hco", [T4], [Gco.new([T4])])  # Hco<out X> : Gco<X>
+    T5 = tp.TypeParameter("K")
+    Kco = tp.TypeConstructor("Kco", [T5], [Hco.new([T5])])  # Kco<K> : Hco<K> : Gco<K>  (three levels, middle one generic)
     simple = [A,B,C,D,HB]
-    cons = [G,Gco,Gin,H,Hco]
+    cons = [G,Gco,Gin,H,Hco,Kco]
     def level(base):
         out=list(base)
         for c in cons:
@@ -119,7 +121,34 @@ def build():
         if vb==1: return va in (0,1) and sub(xa,xb)
         if vb==2: return va in (0,2) and sub(xb,xa)
 
-    return dict(universe=universe, norm=norm, sub=sub, tp=tp, kt=kt, simple=simple, cons=cons)
+    # bare generic classes (TypeConstructor) against their declared supertypes: the constructor stands for all of its
+    # instantiations, so it is below a declared supertype U only if none of its own type parameters occurs in U
+    def occurs(v, t):
+        if isinstance(t, tp.WildCardType):
+            return t.bound is not None and (t.bound == v or occurs(v, t.bound))
+        if isinstance(t, tp.ParameterizedType):
+            return any(a == v or occurs(v, a) for a in t.type_args)
+        return False
+    out, inn = (lambda x: tp.WildCardType(x, tp.Covariant)), (lambda x: tp.WildCardType(x, tp.Contravariant))
+    shapes = [
+        ('plain', lambda X: G.new([X])), ('out', lambda X: G.new([out(X)])), ('in', lambda X: G.new([inn(X)])),
+        ('nested', lambda X: G.new([G.new([X])])), ('nested-out', lambda X: G.new([G.new([out(X)])])),
+        ('out-nested', lambda X: G.new([out(G.new([X]))])), ('in-nested-out', lambda X: G.new([inn(G.new([out(X)]))])),
+        ('nested2-in', lambda X: G.new([G.new([G.new([inn(X)])])])), ('ground', lambda X: G.new([B])),
+        ('ground-out', lambda X: G.new([out(B)])), ('ground-nested', lambda X: G.new([G.new([out(C)])])),
+        ('star', lambda X: G.new([tp.WildCardType()])),
+    ]
+    con_cases = []
+    for nm, mk in shapes:
+        X = tp.TypeParameter("X")
+        sup = mk(X)
+        con = tp.TypeConstructor("S_" + nm.replace('-', '_'), [X], [sup])
+        con_cases.append((nm, con, sup, not occurs(X, sup)))
+        Y1, Y2 = tp.TypeParameter("Y1"), tp.TypeParameter("Y2")
+        sup2 = mk(Y2)
+        con2 = tp.TypeConstructor("S2_" + nm.replace('-', '_'), [Y1, Y2], [sup2])
+        con_cases.append((nm + '/second-parameter', con2, sup2, not occurs(Y2, sup2)))
+    return dict(universe=universe, norm=norm, sub=sub, tp=tp, kt=kt, simple=simple, cons=cons, con_cases=con_cases, supers=supers)
 
 
 def run(tier, seed, stop_first=False):
@@ -167,7 +196,11 @@ def run(tier, seed, stop_first=False):
         if n[0] == 'W':
             return wf(n[2])
         return True
-    idx = [k for k, x in enumerate(universe) if wf(norm(x))][:90 if tier == 'quick' else len(universe)]
+    def wf_deep(n, depth=0):
+        # a type whose (substituted) declared supertypes are ill-formed is outside the fragment too: Kco<in C> with
+        # class Kco<K> : Hco<K>, Hco<out X> has the supertype Hco<in C>
+        return wf(n) and (depth > 6 or all(wf_deep(x, depth + 1) for x in u['supers'](n)))
+    idx = [k for k, x in enumerate(universe) if wf_deep(norm(x))][:90 if tier == 'quick' else len(universe)]
     L = [universe[k] for k in idx]
     rel = {(a, b) for a in range(len(L)) for b in range(len(L)) if L[a].is_subtype(L[b])}
     succ = {}
@@ -183,6 +216,14 @@ def run(tier, seed, stop_first=False):
                 except TypeError:
                     continue
                 report('transitive', i=idx[a], j=idx[c], s=str(L[a]), t=str(L[c]), via=str(L[b]), real=False, declarative=True)
+    # bare generic classes against their declared supertypes
+    for ci, (nm, con, sup, expected) in enumerate(u['con_cases']):
+        evals += 1
+        real = bool(con.is_subtype(sup))
+        if expected:
+            nontrivial.add(('con', ci))
+        if real != expected:
+            report('constructor:' + nm.split('/')[0], i=-2, j=ci, s=str(con), t=str(sup), real=real, declarative=expected)
     # bottom
     for nothing in (kt.Nothing, tp.Nothing):
         for j, t in enumerate(universe):
@@ -190,16 +231,22 @@ def run(tier, seed, stop_first=False):
             if not nothing.is_subtype(t):
                 report('bottom', i=-1, j=j, s=str(nothing), t=str(t), real=False, declarative=True)
     return dict(evaluations=evals, distinct_nontrivial=len(nontrivial),
-                rule='all ordered pairs of a %d-type universe (5 simple classes, 5 generic classes with all declared variances, '
+                rule='all ordered pairs of a %d-type universe (5 simple classes, 6 generic classes with all declared variances incl. a three-level generic chain, '
                      'depth-2 instantiations with out/in projections) compared with the executable least fixpoint of the '
                      'declarative rules; reflexivity on every type; transitivity on all related triples; bottom below every '
-                     'type. Non-trivial: distinct pairs related by the declarative relation' % len(universe),
+                     'type; 24 bare generic classes against their declared supertype (own type parameter plain / projected / nested / absent). '
+                     'Non-trivial: distinct pairs related by the declarative relation' % len(universe),
                 samples=samples, exhaustive=True, violations=violations)
 
 
 def replay(fi):
     u = build()
     universe, norm, sub, tp, kt = u['universe'], u['norm'], u['sub'], u['tp'], u['kt']
+    if fi['i'] == -2:
+        nm, con, sup, expected = u['con_cases'][fi['j']]
+        real = bool(con.is_subtype(sup))
+        print('%s (bare constructor) <: %s : real=%s declarative=%s' % (con, sup, real, expected))
+        return real == expected
     s = universe[fi['i']] if fi['i'] >= 0 else kt.Nothing
     t = universe[fi['j']]
     real = bool(s.is_subtype(t))
